@@ -20,7 +20,14 @@ def main():
     count = 0
     for sh in space.s_shards(9):
         for n, m, rows, tag in space.tables_of_shard(sh):
-            Ref(rows).concepts
+            ref = Ref(rows)
+            ref.concepts
+            if n * m <= 6:
+                from .refmodel import powerset
+                for a in powerset(range(n)):
+                    assert ref.intent_of(a) == ref.intent_of_sets(a)
+                for b in powerset(range(m)):
+                    assert ref.extent_of(b) == ref.extent_of_sets(b)
             count += 1
     assert count == space.count_tables(space.shapes(9)), count
     assert relations_ref([(True, False), (False, True)]) == [('complement', 0, 1)]
